@@ -18,6 +18,7 @@ RULE = (
     "default: no encryptor / EccEncryptor(sel) / Bec2File.write_file without recipient - the ephemeral scalar is learnt through a recording wrapper registered "
     "via the public crypto registry and the block must open under e*Q_sel with the harness's own pinned copy of the four published keys. "
     "interop: blocks sealed by the model are opened by EccDecryptor.decrypt. leading_zero: ephemeral scalars CONSTRUCTED (searched with OpenSSL) so that the shared x-coordinate has a leading 00 byte, in both directions. rawder: raw 64-byte <-> DER conversion vs i2d_PUBKEY. "
+    "first_default (run first, one case per freshly spawned worker): a default EccEncryptor(sel) is created, re-pointed at a test recipient through its public_key attribute (it must then wrap for that recipient), and every default-recipient block written afterwards is still addressed to the published key. "
     "reject: EccDecryptor.decrypt on ephemeral points that are off-curve, have a coordinate >= p, are (0,0), or lie on secp256k1 / brainpoolP256r1, or share X with a valid point but carry another Y, must raise - "
     "also when the SAME decryptor object has just opened a genuine block (an unrelated one, or one whose ephemeral point has the same X). "
     "Every case has a fresh ephemeral key / distinct inputs, so every case is non-trivial; distinct by case hash."
@@ -26,7 +27,7 @@ ASSUMPTIONS = [
     "the four published recipient keys were transcribed once into vlib/bf3model.py (all four verified to be on P-256); a change of the repository constants is reported",
     "any exception counts as refusal of an invalid ephemeral point (types are judged in C14)",
 ]
-REQUIRED_CLASSES = ["reject.after-genuine-block.same-x", "repack.recipient-changes", "repack.via=block", "repack.via=file", "sel=0", "sel=1", "sel=2", "sel=3", "edge-scalar", "default.no-encryptor", "default.encryptor(sel)", "default.write_file",
+REQUIRED_CLASSES = ["first-default.sel=0", "first-default.sel=3", "reject.after-genuine-block.same-x", "repack.recipient-changes", "repack.via=block", "repack.via=file", "sel=0", "sel=1", "sel=2", "sel=3", "edge-scalar", "default.no-encryptor", "default.encryptor(sel)", "default.write_file",
                     "shared-x.leading-zero", "reject.off-curve", "reject.coord>=p", "reject.constructed-y+p", "reject.constructed-x+p", "reject.zero", "reject.other-curve", "key.ends00"]
 
 B2 = sut.B2
@@ -126,6 +127,36 @@ def check_default(case, rec):
         others = [s for s in range(4) if s != sel and M.ecies_open_with_ephemeral(rk.scalars[0], M.published_point(s), block[1:]) == key]
         raise Violation("selector-%d block written without explicit recipient (%s) is not addressed to BALTECH's published key %d%s" % (
             sel, how, sel, (": it opens under published key %d" % others[0]) if others else ""))
+
+
+def enum_first_default(tier, shard, nshards, rng):
+    """runs FIRST, one case per (freshly spawned) worker process: the very first default-recipient encryptor a process creates is the caller's
+    object like any other"""
+    for i in range(16):
+        if i % nshards == shard:
+            yield dict(sel=i % 4, priv=3 + 1000 * i + rng.getrandbits(64), key=bytes(rng.getrandbits(8) for _ in range(16)))
+
+
+def check_first_default(case, rec):
+    sel, key, priv = case["sel"], case["key"], case["priv"]
+    rec.cls("first-default.sel=%d" % sel)
+    rec.nt()
+    # the caller creates a default encryptor and LATER points it at a test recipient through its public attribute: that object then wraps
+    # for the test recipient - and every other default-recipient block of the process is still addressed to BALTECH's published key
+    try:
+        e0 = B2.EccEncryptor(sel)
+        dec = B2.EccDecryptor(sel, sut.private_key_from_int(priv))
+        e0.public_key = dec.public_key
+        blk0 = _blk(sel, key).pack(key, [e0])
+    except Exception as e:
+        raise Violation("default EccEncryptor(%d) re-pointed at a test recipient: %s: %s" % (sel, type(e).__name__, e))
+    try:
+        if M.ecies_open(priv, blk0[1:]) != key:
+            raise Violation("EccEncryptor(%d) whose public_key attribute was assigned a test recipient's key does not wrap for that recipient" % sel)
+    except M.Reject as r:
+        raise Violation("block: %s" % r)
+    for how in ("encryptor(sel)", "no-encryptor", "write_file", "other-encryptors"):
+        check_default(dict(sel=sel, key=key, how=how, empty_writers=(how == "write_file" and sel % 2 == 0)), rec)
 
 
 def check_repack(case, rec):
@@ -524,6 +555,7 @@ def strat_rawder(tier):
 
 def parts(tier):
     return [
+        Part("first_default", check=check_first_default, enum=enum_first_default, quick=(16, 0), thorough=(16, 0)),
         Part("pinned", check=check_pinned, enum=enum_pinned, quick=(1, 0), thorough=(1, 0), exhaustive=True),
         Part("leading_zero", check=check_leading_zero, enum=enum_leading_zero, quick=(4, 0), thorough=(8, 0)),
         Part("explicit", check=check_explicit, strategy=strat_explicit, quick=(16, 150), thorough=(16, 2500)),
